@@ -49,7 +49,7 @@ func (f *Denominator) Call(s *slip.Scope, args slip.List, depth int) (result sli
 		if bi.IsInt64() {
 			result = slip.Fixnum(bi.Int64())
 		} else {
-			result = (*slip.Bignum)(bi)
+			result = slip.IntegerFromBig(bi)
 		}
 	default:
 		slip.TypePanic(s, depth, "rational", args[0], "rational")
